@@ -320,7 +320,7 @@ def collect_rule(ctx, oid, A, ev, ret, b, workerkey, chains_name, stackf):
     """the returned sample is the stack (chain axis 0) of one worker result per chain, in chain order; one channel per chain,
     sender c handed to chain c, receivers kept in the same order"""
     forced = [ls for ls in ev.vf.loops if ls.kind == 'forced' and not ls.ctx and any(e.key == workerkey for e in ls.events)]
-    chan = [ls for ls in ev.vf.loops if ls.kind == 'for' and not ls.ctx and any(e.op == 'channel' for e in ls.events)]
+    chan = [ls for ls in ev.vf.loops if ls.kind in ('for', 'forced') and not ls.ctx and any(e.op == 'channel' for e in ls.events)]
     ok = False
     found = show(ret[1][0])[:300] if ret[0] == 'tuple' else show(ret)[:300]
     if len(forced) == 1 and len(chan) == 1 and ret[0] == 'tuple':
@@ -331,15 +331,21 @@ def collect_rule(ctx, oid, A, ev, ret, b, workerkey, chains_name, stackf):
             chains0 = fl.init[ck[0]]
             nchains = seq_len(chains0)
             c = ch[0].res
-            pushes = {keyrepr(k): cl.next[k] for k in cl.lh}
-            txk = [k for k in cl.lh if cl.next[k] is T.app('push', cl.lh[k], T.app('tx', c))]
-            rxk = [k for k in cl.lh if cl.next[k] is T.app('push', cl.lh[k], T.app('rx', c))]
+            if cl.kind == 'for':
+                # push form: two Vecs started empty, one sender and one receiver pushed per iteration
+                txk = [k for k in cl.lh if cl.next[k] is T.app('push', cl.lh[k], T.app('tx', c))]
+                rxk = [k for k in cl.lh if cl.next[k] is T.app('push', cl.lh[k], T.app('rx', c))]
+                okpair = len(txk) == 1 and len(rxk) == 1 and cl.init[txk[0]] is T.app('array') and cl.init[rxk[0]] is T.app('array')
+            else:
+                # map(|_| channel()).unzip() form: one (sender, receiver) pair per iteration
+                rt = getattr(cl, 'result_term', None)
+                okpair = rt is not None and rt[0] == 'tuple' and set(rt[1]) == {T.app('tx', c), T.app('rx', c)} and len(rt[1]) == 2
             w = [e for e in fl.events if e.key == workerkey]
-            okchan = cl.n is nchains and not cl.exits and len(txk) == 1 and len(rxk) == 1 and cl.init[txk[0]] is T.app('array') and cl.init[rxk[0]] is T.app('array')
+            okchan = cl.n is nchains and not cl.exits and okpair
             okwork = len(w) == 1 and fl.n is nchains and w[0].args[0] is index_term(fl.lh[ck[0]], fl.var) and w[0].args[3] is T.app('tx', c) and not w[0].pc \
                 and fl.next[ck[0]] is T.app('upd', fl.lh[ck[0]], fl.var, T.app('post0', w[0].res))
             R = T.app('eff', mk_comp(fl.n, fl.var, w[0].res), S('loop%d' % fl.uid)) if w else None
-            ok = okchan and okwork and R is not None and ret[1][0] is stackf(R)
+            ok = okchan and okwork and R is not None and strip_eff(ret[1][0]) is strip_eff(stackf(R))
             found = 'channels: n=%s ok=%s; workers: n=%s ok=%s; sample=%s' % (show(cl.n), okchan, show(fl.n), okwork, found)
     ctx.check(oid, A, 'collect', ok, expected='one channel per chain (n = number of chains); worker c runs chain c in place with sender c; results stacked on the chain axis in chain order', found=found, sp=b['sp'],
               why='run_progress returns a [n_chains, n_collect, dim] array whose row c belongs to chain c (as run does); a missing channel silently drops a chain')
